@@ -210,3 +210,21 @@ mod tests {
         assert_eq!(encode_base(b'x'), 15);
     }
 }
+
+#[cfg(noodles_verif)]
+#[doc(hidden)]
+pub fn __verif_encode_base(n: u8) -> u8 {
+    encode_base(n)
+}
+
+#[cfg(noodles_verif)]
+#[doc(hidden)]
+pub fn __verif_pack_bases(l: u8, r: u8) -> u8 {
+    pack_bases(l, r)
+}
+
+#[cfg(noodles_verif)]
+#[doc(hidden)]
+pub fn __verif_write_sequence_length(dst: &mut Vec<u8>, base_count: usize) -> io::Result<()> {
+    write_length(dst, base_count)
+}
